@@ -1,5 +1,6 @@
 import Rare.Base.Proto
 import Rare.Model.C18
+import Rare.Model.C18Zone
 /-!
 Line-protocol ops of C18 (fields after the property id).  `argc` is the number of arguments the
 template passes; fields beyond it are ignored (defaults apply).  `zok` = `time.LoadLocation(zone)`
@@ -16,6 +17,10 @@ succeeds on the host (oracle).  `off` / `abbr` = what Go reports for the zone at
     dur    <arg>                                               {duration <arg>}
     durf   <arg>                                               {durationformat <arg>}
     cal    <days>                                              reference calendar only
+    zone   <zone> <table> at <unix>                            Location.lookup on a transition table
+    zone   <zone> <table> date <wall>                          the zone resolution of time.Date
+    ztime  <fmt> <zone> <str> <table>                          {time <str> <fmt> <zone>}, the zone given as a
+           table `<off>:<abbr>,<from>:<off>:<abbr>,…` (real transitions around the instant): no oracle
 -/
 namespace Rare.Drv.C18
 open Rare Rare.C18 Rare.Proto
@@ -53,6 +58,27 @@ def renderSeq (outs : List Out) : String :=
   match outs.find? (fun o => match o with | .unmodelled _ => true | _ => false) with
   | some (.unmodelled w) => s!"unmodelled {w}"
   | _ => "ok errs=. val=" ++ hexList (outs.map fun o => match o with | .val b => b | _ => [])
+
+def parseTab (s : String) : Option ZoneTab :=
+  match s.splitOn "," with
+  | [] => none
+  | i :: rest =>
+    match i.splitOn ":" with
+    | [o, a] =>
+      match o.toInt?, Hex.dec a with
+      | some o, some a =>
+        let tr := rest.mapM fun e =>
+          match e.splitOn ":" with
+          | [t, o, a] =>
+            match t.toInt?, o.toInt?, Hex.dec a with
+            | some t, some o, some a => some (t, o, a)
+            | _, _, _ => none
+          | _ => none
+        match tr with
+        | some tr => some ⟨(o, a), tr⟩
+        | none => none
+      | _, _ => none
+    | _ => none
 
 def handle : List String → String
   | ["fmt", argc, fmt, zone, zok, arg, off, abbr] =>
@@ -146,6 +172,28 @@ def handle : List String → String
       let w := isoYearWeek z
       s!"ok {c.y} {c.m} {c.d} wd={weekday z} yd={yearDay z + 1} iso={w.1}-{w.2} q={quarter c.m} back={daysFromCivil c.y c.m c.d}"
     | none => "bad-args"
+  | ["zone", _, tab, kind, n] =>
+    match parseTab tab, n.toInt? with
+    | some z, some n =>
+      if !sortedTrans z.trans then "bad-args"
+      else if kind = "at" then
+        let s := z.lookup n
+        s!"ok off={s.off} abbr={Hex.enc s.abbr}"
+      else if kind = "date" then s!"ok unix={dateIn z n}"
+      else "bad-args"
+    | _, _ => "bad-args"
+  | ["ztime", fmt, _, str, tab] =>
+    match Hex.dec fmt, Hex.dec str, parseTab tab with
+    | some fmt, some str, some z =>
+      if !isAscii fmt then "unmodelled non-ascii"
+      else match modeOf timeFormats fmt with
+        | .explicit layout =>
+          render "." (parseThen layout str fun p =>
+            match instantIn z p with
+            | some u => .val (itoa u)
+            | none => .unmodelled "zone-abbreviation")
+        | _ => "unmodelled needs-seq-op"
+    | _, _, _ => "bad-args"
   | _ => "bad-op"
 
 end Rare.Drv.C18
